@@ -116,14 +116,30 @@ func c09digest(b []byte) string {
 type c09 struct {
 	c       *Ctx
 	reports map[string]int
+	family  map[string]int
+	total   int
 }
 
 // fail reports a direct-oracle failure; per signature at most 3 are written out (the rest
 // are only counted) — F6 fails on a large share of all generated programs.
 func (h *c09) fail(sig, detail string) {
 	h.reports[sig]++
-	h.c.Count("oraclefail/" + sig)
-	if h.reports[sig] <= 3 {
+	fam := sig
+	if i := strings.IndexByte(sig, ':'); i >= 0 {
+		fam = sig[:i]
+	}
+	if len(sig) < 50 {
+		h.c.Count("oraclefail/" + sig)
+	} else {
+		h.c.Count("oraclefail/" + fam)
+	}
+	if len(detail) > 400 {
+		detail = detail[:400] + "…"
+	}
+	// written out: at most 3 per signature, 20 per family, 80 per run (the rest is counted)
+	if h.reports[sig] <= 3 && h.family[fam] < 20 && h.total < 80 {
+		h.family[fam]++
+		h.total++
 		h.c.Fail(sig, detail)
 	}
 }
@@ -973,7 +989,7 @@ func (h *c09) line(l string) {
 
 func runC09(c *Ctx) {
 	c.Rule = "ParseProgram/Disassemble on every byte string of length <= 2 (and, digested, on all 3-byte strings: 256 first bytes in the thorough tier, 8 in quick), on random strings <= 300 bytes and on grammar-generated programs (canonical and non-canonical pushes incl. truncated PUSHDATA1/2/4, jumps to boundaries / off boundaries / past the end, expansion opcodes); Assemble on every disassembly and on generated token streams (names, hex, quoted strings with escapes, decimal numbers around 2^64 and 2^256, labels, numeric jumps, every Unicode space bufio knows, tokens around the 64 KiB Scanner limit); PushDataBytes for every length 0..300 and 65535..65537, 70000; all builders and recognisers on argument lengths 0..77, 255..257, 1000, 65535.., random programs and mutated builder outputs. A case is distinct by its op line; non-trivial = reaches ParseOp/Assemble with a non-empty input."
-	h := &c09{c: c, reports: map[string]int{}}
+	h := &c09{c: c, reports: map[string]int{}, family: map[string]int{}}
 	replaying := c.Replay != ""
 	lines := c.CorpusLines()
 	if replaying {
@@ -1102,7 +1118,9 @@ func runC09(c *Ctx) {
 		}
 	}
 	for sig, n := range h.reports {
-		c.Extra["oracle-failures/"+sig] = n
+		if len(sig) < 60 {
+			c.Extra["oracle-failures/"+sig] = n
+		}
 	}
 }
 
